@@ -463,6 +463,65 @@ func c17ScaledContext(r *harness.Run, tier string) {
 	}
 }
 
+// c17FamilyContext: context independence and repeatability over the control-flow program families: each program is
+// compiled twice alone (byte-identical), and next to two neighbour statements sets, before and after them.
+func c17FamilyContext(r *harness.Run, tier string) {
+	plans, swN := enginePlans(tier)
+	owned := regexp.MustCompile(`^(SX|SX_\d+)$`)
+	neighbours := []string{
+		"script SY {\n\tlock\n\tif (flag(NA)) {\n\t\tmsgbox(\"neighbour text\")\n\t}\n\tNeighbourLabel:\n\twhile (var(NB) < 3) {\n\t\tapplymovement(1, moves(nu nd))\n\t}\n}\n",
+		"mapscripts NM {\n\tNT1 {\n\t\tswitch (var(NC)) {\n\t\t\tcase 1:\n\t\t\t\tna\n\t\t\tdefault:\n\t\t\t\tnb\n\t\t}\n\t}\n}\ntext NTx {\n\t\"neighbour\"\n}\nraw `\nNeighbourRaw:\n`\n",
+	}
+	forEachEngineProgram(r, plans, swN, func(w int, p engineProgram) {
+		sc := cloneScript(p.Script)
+		sc.Name = "SX"
+		user := model.UserLabels([]*model.Script{sc})
+		st := c17Stmt{name: "SX", owned: owned}
+		if len(user) > 0 {
+			alt := []string{"SX", `SX_\d+`}
+			for l := range user {
+				alt = append(alt, regexp.QuoteMeta(l))
+			}
+			st.owned = regexp.MustCompile("^(" + strings.Join(alt, "|") + ")$")
+		}
+		xsrc := model.Print([]*model.Script{sc})
+		for _, opt := range []bool{true, false} {
+			res := comp.Compile(xsrc, comp.Opts{Optimize: opt})
+			if res.Err != nil || res.Panic != "" {
+				continue
+			}
+			r.Add("evaluations", 1)
+			r.Add("family_programs_x_optimize", 1)
+			if again := comp.Compile(xsrc, comp.Opts{Optimize: opt}); again.Out != res.Out {
+				r.Report(harness.Violation{Sig: "C17:family:not-repeatable", Summary: fmt.Sprintf("%s: two compilations of the same input differ: %s", p.Desc, firstDiff(again.Out, res.Out)), Replay: map[string]interface{}{"source": xsrc, "optimize": opt}})
+			}
+			want := c17Section(res.Out, st)
+			for ni, nb := range neighbours {
+				for pos := 0; pos < 2; pos++ {
+					src := nb + "\n" + xsrc
+					if pos == 1 {
+						src = xsrc + "\n" + nb
+					}
+					res2 := comp.Compile(src, comp.Opts{Optimize: opt})
+					r.Add("evaluations", 1)
+					r.Add("nontrivial", 1)
+					r.Add("family_contexts", 1)
+					if res2.Err != nil || res2.Panic != "" {
+						r.Report(harness.Violation{Sig: "C17:family-context:rejected", Summary: fmt.Sprintf("file rejected: %v %s (%s next to neighbour %d)", res2.Err, firstLine(res2.Panic), p.Desc, ni), Replay: map[string]interface{}{"source": src}})
+						continue
+					}
+					if got := c17Section(res2.Out, st); got != want {
+						s2 := src
+						r.Report(harness.Violation{Sig: "C17:family-context", Summary: fmt.Sprintf("the code emitted for a script (%s) depends on its neighbours (neighbour %d, position %d, optimize=%v): %s", p.Desc, ni, pos, opt, firstDiff(got, want)),
+							Replay:  map[string]interface{}{"source": src, "statement": "SX", "optimize": opt, "alone": want, "in_context": got},
+							Recheck: func() bool { return c17Section(comp.Compile(s2, comp.Opts{Optimize: opt}).Out, st) != want }})
+					}
+				}
+			}
+		}
+	})
+}
+
 // ---------------------------------------------------------------------------
 
 func runC17(tier string) int {
@@ -576,6 +635,7 @@ func runC17(tier string) int {
 	// (3) context independence
 	c17Context(r, tier)
 	c17ScaledContext(r, tier)
+	c17FamilyContext(r, tier)
 
 	schedWG.Wait()
 	if schedErr != "" {
